@@ -437,8 +437,8 @@ func buildImpl(pkgName string, generated []byte, services []string) (string, err
 			return false
 		}
 		tn := "verif" + goName + "Impl"
-		fmt.Fprintf(&body, "type %s struct{}\n", tn)
-		fmt.Fprintf(&body, "func (i *%s) Activate(activation bus.Activation, helper %sSignalHelper) error { verifHelpers[%q] = helper; return nil }\n", tn, goName, goName)
+		fmt.Fprintf(&body, "type %s struct{ variant string }\n", tn)
+		fmt.Fprintf(&body, "func (i *%s) Activate(activation bus.Activation, helper %sSignalHelper) error { verifHelpers[%q+i.variant] = helper; return nil }\n", tn, goName, goName)
 		fmt.Fprintf(&body, "func (i *%s) OnTerminate() {}\n", tn)
 		for _, m := range impl.Methods.List {
 			if len(m.Names) == 0 {
@@ -512,8 +512,8 @@ func buildImpl(pkgName string, generated []byte, services []string) (string, err
 			}
 			return "[]string{" + strings.Join(parts, ", ") + "}"
 		}
-		fmt.Fprintf(&reg, "\tverifItfs = append(verifItfs, verifItf{Service: %q, Go: %q, Actor: func() bus.Actor { return %sObject(&%s{}) }, Proxy: func(s bus.Session) (interface{}, error) { return %s(s) }, Impl: &%s{}, Methods: %s, Signals: %s, Properties: %s})\n",
-			services[idx], goName, goName, tn, goName, tn, q(methods), q(signals), q(properties))
+		fmt.Fprintf(&reg, "\tverifItfs = append(verifItfs, verifItf{Service: %q, Go: %q, Actor: func() bus.Actor { return %sObject(&%s{}) }, Proxy: func(s bus.Session) (interface{}, error) { return %s(s) }, Create: func(s bus.Session, svc bus.Service) (interface{}, error) { return Create%s(s, svc, &%s{variant: \"#created\"}) }, Impl: &%s{}, Methods: %s, Signals: %s, Properties: %s})\n",
+			services[idx], goName, goName, tn, goName, goName, tn, tn, q(methods), q(signals), q(properties))
 	}
 	var out strings.Builder
 	fmt.Fprintf(&out, "// Code written by the verification harness (C05).\npackage %s\n\nimport (\n\t\"sync\"\n", pkgName)
@@ -534,6 +534,7 @@ func buildImpl(pkgName string, generated []byte, services []string) (string, err
 	Service, Go                  string
 	Actor                        func() bus.Actor
 	Proxy                        func(bus.Session) (interface{}, error)
+	Create                       func(bus.Session, bus.Service) (interface{}, error)
 	Impl                         interface{}
 	Methods, Signals, Properties []string
 }
